@@ -65,11 +65,12 @@ MIN_EVENTS = {
     'quick': {'requests_judged': 1800, 'requests_answered_once': 1500, 'non_requests_judged': 1700,
               'unknown_opcodes_judged': 800, 'mtu_checks': 4000, 'indications_seen': 400, 'notifications_seen': 2000,
               'opcodes_swept': 256, 'eatt_requests': 1800, 'server_pdus_exactly_mtu': 1400, 'sequences': 600,
-              'eatt_exchange_mtu_probes': 20},
+              'eatt_exchange_mtu_probes': 20, 'reconnections_after_raised_mtu': 40, 'notify_calls_after_reconnect': 600},
     'thorough': {'requests_judged': 72000, 'requests_answered_once': 60000, 'non_requests_judged': 68000,
                  'unknown_opcodes_judged': 32000, 'mtu_checks': 160000, 'indications_seen': 16000,
                  'notifications_seen': 80000, 'opcodes_swept': 10240, 'eatt_requests': 72000,
-                 'server_pdus_exactly_mtu': 56000, 'sequences': 24000, 'eatt_exchange_mtu_probes': 800},
+                 'server_pdus_exactly_mtu': 56000, 'sequences': 24000, 'eatt_exchange_mtu_probes': 800,
+                 'reconnections_after_raised_mtu': 400, 'notify_calls_after_reconnect': 6000},
 }
 CASE_TIMEOUT = 300
 
@@ -91,6 +92,8 @@ def plan(tier, seed):
         cases.append({'kind': 'seq', 'seed': base + 5000 + i, 'perm_base': (i * 16) % 256})
     for i in range(40 * mult):
         cases.append({'kind': 'notify', 'seed': base + 9000 + i, 'perm_base': (i * 8) % 256})
+    for i in range(30 * mult):
+        cases.append({'kind': 'reconnect', 'seed': base + 12000 + i, 'perm_base': (i * 8) % 256})
     return cases
 
 
@@ -715,6 +718,89 @@ async def notify_case(case, r: R):
     finish_case(case, r, hs, bearers, trail, info, enc, auth)
 
 
+async def reconnect_case(case, r: R):
+    """A client raises its ATT_MTU and subscribes, the link goes away, a NEW connection is made (the
+    controller hands out the same handle again): the new fixed bearer is at the default ATT_MTU and has
+    subscribed to nothing, so the server sends it nothing it did not ask for, nothing longer than 23 bytes,
+    and — once it subscribes itself — never two indications at once."""
+    rng = random.Random(case['seed'])
+    hs, bearers, enc, auth, info = await make_harness(case, r, rng, notify_bias=True)
+    trail = []
+    big = rng.choice([100, 185, 517])
+    await send_one(hs, hs.fixed, ra.exchange_mtu(big), 'valid', trail, r)
+    chars = [m for m in hs.models if m.role == 'value' and cccd_of(hs, m) is not None
+             and ra.allowed_write(cccd_of(hs, m).perm, enc, auth)]
+    rng.shuffle(chars)
+    chars = chars[:3]
+    if not chars:
+        await hs.finish()
+        finish_case(case, r, hs, bearers, trail, info, enc, auth)
+        return
+    for m in chars:
+        for b in bearers:
+            await send_one(hs, b, ra.write_request(cccd_of(hs, m).handle, bytes([rng.choice([1, 2, 3, 3]), 0])), 'allowed', trail, r)
+    for b in bearers:
+        b.pairing.close(r, 'before the reconnection')
+    first_mtu = hs.fixed.pairing.mtu
+    raw_central = rng.random() < 0.5
+    hs.ctx = 'reconnecting'
+    try:
+        fixed = await hs.reconnect(raw_central, rng.choice(['raw', 'server']))
+    except vloop.Hang:
+        r.ev('reconnect_harness_hang')
+        return
+    hs.set_link(enc, auth)
+    bearers = [fixed]
+    r.ev('reconnections')
+    if first_mtu > 23:
+        r.ev('reconnections_after_raised_mtu')
+    server = hs.server
+    for round_ in range(2):
+        for m in chars:
+            # (round 0: the new client has subscribed to nothing; round 1: it subscribed itself)
+            sub = 0
+            if round_ == 1:
+                sub = rng.choice([1, 2, 3])
+                await send_one(hs, fixed, ra.write_request(cccd_of(hs, m).handle, bytes([sub, 0])), 'allowed', trail, r)
+            for ln in (rng.choice([0, 5, 19]), 20, 21, first_mtu - 3, 512):
+                val = ra.marker_value(m.index, max(0, ln))
+                fixed.pairing.expected_server_initiated = 1 if sub & 1 else 0
+                hs.ctx = (f'after a reconnection (previous link: ATT_MTU {first_mtu}, subscribed; this link: ATT_MTU '
+                          f'{fixed.pairing.mtu}, CCCD {sub}) notify_subscribers with {len(val)} bytes')
+                try:
+                    await vloop.vwait(server.notify_subscribers(m.obj, val), 60)
+                except vloop.Hang:
+                    r.bad('notify/api-hang/after-reconnect', hs.ctx)
+                await hs.rg.quiesce()
+                r.ev('notify_calls_after_reconnect')
+            fixed.pairing.expected_server_initiated = 1 if sub & 2 else 0
+            hs.ctx = (f'after a reconnection (previous link subscribed; this link CCCD {sub}) indicate_subscribers')
+            t = asyncio.ensure_future(server.indicate_subscribers(m.obj, ra.marker_value(m.index, 7)))
+            for _ in range(4):
+                await hs.rg.quiesce()
+                await asyncio.sleep(0.2)
+                await hs.rg.quiesce()
+                if fixed.pairing.outstanding_indications > 0:
+                    fixed.send(ra.confirmation(), 'valid')
+                    trail.append((fixed.kind, ra.HANDLE_VALUE_CFM, 'valid'))
+                    r.ev('confirmations_sent')
+            done, not_done = await asyncio.wait([t], timeout=100)
+            if not_done:
+                r.bad('indicate/api-hang/after-reconnect', hs.ctx)
+                t.cancel()
+            r.ev('indicate_calls_after_reconnect')
+            await hs.settle()
+            fixed.pairing.close(r, hs.ctx)
+            fixed.pairing.expected_server_initiated = 0
+    # ordinary requests still work and fit the new link's ATT_MTU
+    g = Gen(rng, hs, enc, auth)
+    longs = [m for m in hs.models if m.value is not None and len(m.value) >= 30 and g.rclass(m) == 'allowed' and m.kind == 'static']
+    for m in longs[:3]:
+        await send_one(hs, fixed, ra.read(m.handle), 'allowed', trail, r)
+    await hs.finish()
+    finish_case(case, r, hs, bearers, trail, info, enc, auth)
+
+
 def finish_case(case, r: R, hs, bearers, trail, info, enc, auth):
     nontrivial = any(l not in WELL_BEHAVED for _b, _o, l in trail) or \
         any(b.pairing.indications_seen + b.pairing.notifications_seen for b in bearers)
@@ -741,6 +827,8 @@ async def run_case(case, r: R):
         await sweep_case(case, r)
     elif case['kind'] == 'seq':
         await seq_case(case, r)
+    elif case['kind'] == 'reconnect':
+        await reconnect_case(case, r)
     else:
         await notify_case(case, r)
 
